@@ -235,8 +235,11 @@ def protocol_part(ctx):
     def cats(c):
         return c.startswith(("refusal.", "db.", "files.", "command.failed", "agreement."))
 
-    ic.tour(ctx, [("Sim_IndexBreak.cfg", 40 if ctx.quick else 800, 10)], {"idempotence": False, "rebuild": False}, cats,
+    ic.tour(ctx, [("Sim_IndexBreak.cfg", 30 if ctx.quick else 600, 10)], {"idempotence": False, "rebuild": False}, cats,
             "C08 protocol")
+    # page names in substring relation: the whitelist must be matched by whole paths
+    ic.tour(ctx, [("Sim_IndexBreak.cfg", 15 if ctx.quick else 600, 10), ("Sim_IndexScript08.cfg", 30 if ctx.quick else 300, 7)],
+            {"idempotence": False, "rebuild": False, "names": {1: "odo.zo", 2: "archive/todo.zo"}}, cats, "C08 protocol")
     ctx.coverage.pop("_sigs", None)
     # the recorded finding, at the protocol level: a broken page without any parsed item is indexed as an empty page
     env = zenv.ZEnv()
